@@ -16,7 +16,7 @@
      names_ok n                  interface, member and property names of everything registered in n are valid D-Bus names
      xi_wf x                     no comment of x contains "--"  (XML 1.0 well-formedness of comments)
      node_dd n                   some doc text of an interface registered in the subtree n contains "--" *)
-From ZV Require Import Base.Bytes C26.Desc C26.Tree C26.Msg C27.Model C28.Model C26.Model.
+From ZV Require Import Base.Bytes Base.Res C26.Desc C26.Tree C26.Msg C27.Model C28.Model C26.Model.
 From ZV Require Import C28.Spec C26.Spec C27.Spec C26.Facts C26.Proofs C28.Proofs C27.Proofs C27.Reader C27.ReadBack C27.Examples.
 
 (* The well-formedness part as stated, kept visible; REFUTED (C27_wellformed_refuted). *)
